@@ -89,6 +89,9 @@ func (r *Rng) webURL() *webURL {
 		w.port = r.Pick([]string{"8080", "81", "1", "65535", "8000", "444"})
 	}
 	ns := r.Intn(4)
+	if r.Chance(1, 5) {
+		ns = 0
+	}
 	for i := 0; i < ns; i++ {
 		s := r.unres(1, 5)
 		if r.Chance(1, 12) {
@@ -216,7 +219,9 @@ func (w *webURL) spell(r *Rng, o spellOpts, fixedSeed uint64) string {
 		dot()
 		sb.WriteString("/" + r.spellText(s, o, fixed))
 	}
-	if w.trailing || len(w.segs) == 0 {
+	if len(w.segs) == 0 && r.Chance(1, 3) {
+		// the empty path: scheme://authority directly followed by the query, the fragment or the end is the same URL as with "/"
+	} else if w.trailing || len(w.segs) == 0 {
 		dot() // only where a slash follows: "seg/x/.." is "seg/", not "seg"
 		sb.WriteString("/")
 	}
